@@ -49,6 +49,9 @@ def main(path):
     print('replay: inputs %s' % json.dumps({k: w[k] for k in list(w)[:24]}))
     try:
         res = c.run(g, fn, args, kwargs)
+    except Reject as e:
+        print('replay: witness cannot be replayed (%s)' % e)
+        return 2
     except Exception as e:
         if isinstance(e, tuple(c.expect_raises)):
             print('replay: listed exception raised natively: %r' % e)
